@@ -54,6 +54,8 @@ def tokens(t):
         return ["p%d" % t[1]]
     if k == "r":
         return ["r%d" % t[1]] + tokens(t[2])
+    if k in ("N", "O"):
+        return ["%s%d" % (k, t[1])] + tokens(t[2])
     if k == "a":
         out = ["a%d" % len(t[1])]
         for x in t[1]:
@@ -130,8 +132,8 @@ def gen_bytes(rng, maxlen, json_safe):
     return out
 
 
-def gen_ident(rng):
-    s = bytes([rng.choice(b"abcxyzABCXYZ_$")]) + bytes(rng.choice(b"abcxyzABC0189_") for _ in range(rng.randrange(0, 6)))
+def gen_ident(rng, digit_first=False):
+    s = bytes([rng.choice(b"abcxyzABCXYZ_$0189" if digit_first else b"abcxyzABCXYZ_$")]) + bytes(rng.choice(b"abcxyzABC0189_") for _ in range(rng.randrange(0, 6)))
     if s in (b"Y", b"N", b"true", b"false", b"null"):
         s += b"_"
     return s
@@ -169,32 +171,36 @@ def gen_tree(rng, depth, maxdepth, opts):
     n = rng.choice([0, 1, 2, 3, 5])
     ms = []
     for _ in range(n):
-        k = gen_ident(rng) if (opts.get("ident_keys") or rng.random() < 0.4) else gen_bytes(rng, 8, opts.get("utf8", True))
+        k = gen_ident(rng, True) if (opts.get("ident_keys") or rng.random() < 0.4) else gen_bytes(rng, 8, opts.get("utf8", True))
         ms.append((k, gen_tree(rng, depth + 1, maxdepth, opts)))
     if n and rng.random() < 0.2:
         ms.append((ms[0][0], gen_tree(rng, depth + 1, maxdepth, opts)))       # duplicate assignment
     if rng.random() < 0.25:
         ms.append((b"$type", ("s", gen_ident(rng))))
+    elif rng.random() < 0.06:
+        # a `$type` that is not a string: the XDL encoder prints **cname (Var::operator*)
+        ms.append((b"$type", rng.choice([("n",), ("z",), ("b", True), ("b", False), ("i", 7), ("d", 0x3ff8000000000000), ("F", 0x3fc00000),
+                                         ("a", [("i", 1)]), ("o", [(b"k", ("i", 1))]), ("s", b""), ("s", b"a b")])))
     return ("o", ms)
 
 
-def ident_ok(k):
-    return len(k) > 0 and (k[:1].isalpha() or k[:1] in b"_$") and all(bytes([c]).isalnum() or c == 95 for c in k[1:]) and k.isascii()
+def ident_ok(k, digit_first=False):
+    return len(k) > 0 and (k[:1].isalpha() or k[:1] in b"_$" or (digit_first and k[:1].isdigit())) and all(bytes([c]).isalnum() or c == 95 for c in k[1:]) and k.isascii()
 
 
 def xdl_ok(t):
     """keys are identifiers (the property's XDL clause)"""
     if t[0] == "a":
         return all(xdl_ok(x) for x in t[1])
-    if t[0] == "r":
+    if t[0] in ("r", "N", "O"):
         return xdl_ok(t[2])
     if t[0] == "o":
         for k, v in t[1]:
             if k == b"$type":
-                if v[0] != "s" or not ident_ok(v[1]) or v[1] in (b"Y", b"N", b"true", b"false", b"null") or v[1][:1] == b"$" and False:
+                if v[0] != "s" or len(v[1]) == 0 or not ident_ok(v[1]) or v[1] in (b"Y", b"N", b"true", b"false", b"null") or v[1][:1] == b"$" and False:
                     return False
                 continue
-            if not ident_ok(k) or not xdl_ok(v):
+            if not ident_ok(k, True) or not xdl_ok(v):
                 return False
     return True
 
@@ -210,7 +216,7 @@ def utf8_ok(t):
         return ok(t[1])
     if t[0] == "a":
         return all(utf8_ok(x) for x in t[1])
-    if t[0] == "r":
+    if t[0] in ("r", "N", "O"):
         return utf8_ok(t[2])
     if t[0] == "o":
         return all(ok(k) and utf8_ok(v) for k, v in t[1])
@@ -221,6 +227,23 @@ def utf8_ok(t):
 
 class NoOpinion(Exception):
     pass
+
+
+class TooDeep(Exception):
+    """nesting beyond XDL_MAX_DEPTH: the decoder must reject the text"""
+
+
+def tree_depth(t):
+    k = t[0]
+    if k == "a":
+        return 1 + max([tree_depth(x) for x in t[1]] + [0])
+    if k == "o":
+        return 1 + max([tree_depth(v) for _, v in t[1]] + [0])
+    if k == "r":
+        return 1 + tree_depth(t[2])
+    if k in ("N", "O"):
+        return t[1] + tree_depth(t[2])
+    return 0
 
 
 def _num_dump(lex, x):
@@ -275,6 +298,11 @@ def expected(t, mode):
     if k == "r":
         e = expected(t[2], mode)
         return "[" + ",".join([e] * t[1]) + "]"
+    if k in ("N", "O"):
+        if t[1] + tree_depth(t[2]) > 1000:
+            raise TooDeep()
+        e = expected(t[2], mode)
+        return ("[" * t[1] + e + "]" * t[1]) if k == "N" else ("{6b:" * t[1] + e + "}" * t[1])
     if k == "a":
         return "[" + ",".join(expected(x, mode) for x in t[1]) + "]"
     if k == "o":
@@ -307,6 +335,9 @@ def parse_tokens(ts, i=0):
     if tag == "r":
         x, j = parse_tokens(ts, i + 1)
         return ("r", int(arg), x), j
+    if tag in ("N", "O"):
+        x, j = parse_tokens(ts, i + 1)
+        return (tag, int(arg), x), j
     if tag == "a":
         items = []
         j = i + 1
@@ -338,7 +369,10 @@ def reference(line):
                 return None
             if not (mode & 8) and not xdl_ok(tree):
                 return None
-            exp = expected(tree, mode)
+            try:
+                exp = expected(tree, mode)
+            except TooDeep:
+                exp = "none"
             return exp if t[0] == "rt" else "eq " + exp
     except (NoOpinion, RecursionError, ValueError, IndexError):
         return None
@@ -496,6 +530,13 @@ def gen(rng, tier):
             pad = base - span + off
             tree = ("a", [("p", pad), probe])
             cases.append(["file %d %s" % (rng.choice([8, 8, 9]), " ".join(tokens(tree)))])
+    # nesting at the decoder's limit (XDL_MAX_DEPTH = 1000): encode→decode and write→read, all layouts
+    for dep in ([200, 512, 999, 1000, 1001] if quick else [1, 2, 100, 512, 998, 999, 1000, 1001, 1002, 3000]):
+        for kind in ("N", "O"):
+            item = rng.choice([("i", 7), ("s", b"x"), ("a", []), ("o", []), ("d", 0x3ff8000000000000), ("b", True)])
+            ts = " ".join(tokens((kind, dep - (1 if item[0] in "ao" else 0), item)))
+            pretty_ok = dep <= (200 if quick else 1001)       # the PRETTY text of depth d has ~d*d bytes
+            cases.append(["rt 8 " + ts, "rt 0 " + ts, "file 8 " + ts, "file 0 " + ts] + (["rt 9 " + ts, "rt 1 " + ts, "file 1 " + ts] if pretty_ok else []))
     # large documents (several flushes, several read chunks)
     for n in ([3000, 20000] if quick else [3000, 20000, 100000, 400000]):
         tree = ("r", n, rng.choice([("d", 0x3ff199999999999a), ("i", 123456), ("s", b"ab\ncd"), ("a", [("i", 1), ("b", False)])]))
